@@ -80,7 +80,9 @@ func TestC08Convergence(t *testing.T) {
 	maxU := vk.Pick(4, 5)
 	alph := c08alphabets()
 	kinds := []string{"sessions", "subscriptions", "retained", "mixed"}
-	offsets := []int64{0, -25, 25}
+	// +-25 = 2.5 ticks (never coincides with the other clock); +-10 = exactly one tick: B's clock then reads
+	// exactly the stamp A just used, only meaningful with synchronised origins (otherwise a genuine tie)
+	offsets := []int64{0, -25, 25, -10, 10}
 	shardedPhase(t, "C08", "C08/convergence", "E1-enum", "TestC08Convergence", func(sh vk.Shard, rep *vk.Report) {
 		dInstallClock()
 		deadline := vk.Deadline(200e9, 1500e9)
@@ -99,7 +101,15 @@ func TestC08Convergence(t *testing.T) {
 			ops := alph[kind]
 			for _, off := range offsets {
 				for _, syncMode := range []bool{true, false} {
+					if (off == -10 || off == 10) && (!syncMode || kind == "subscriptions" || kind == "mixed") {
+						// subscription writes are plain last-writer-wins stamps (no bump): a one-tick offset would be a
+						// genuine tie between an add and a removal, which the statement excludes
+						continue
+					}
 					for n := 1; n <= maxU; n++ {
+						if (off == -10 || off == 10) && n > 4 {
+							continue
+						}
 						if n == 5 && (off != 0 && !syncMode) {
 							continue // largest size: skew only with synchronised origins (cost)
 						}
